@@ -230,6 +230,46 @@ def run_c13(ctx, quick, rng, wd):
                            f'values, natively chunked): copied X differs', {'big_layer': enc})
         finally:
             shutil.rmtree(d, ignore_errors=True)
+    # stacking sources of the same kind but different width (float32 + float64, int32 + int64), the narrower one first,
+    # the wider one holding values the narrower type cannot represent: the stacked matrix is exact, or the call refuses
+    from cell_type_mapper.utils.anndata_utils import amalgamate_h5ad
+    for t1, t2, v2 in (('float32', 'float64', 1.0 + 2.0 ** -30), ('int32', 'int64', 2 ** 31 + 5),
+                       ('float64', 'float32', 1.5), ('uint16', 'uint32', 70000)):
+        for enc in ('csr', 'dense'):
+            for sparse_out in (True, False):
+                d = tempfile.mkdtemp(dir=wd)
+                try:
+                    A1 = np.array([[1, 0, 2], [0, 3, 0]], dtype=t1)
+                    A2 = np.array([[0, v2, 0], [4, 0, v2]], dtype=t2)
+                    obs1 = pd.DataFrame(index=pd.Index(['a0', 'a1'], name='cell_id'))
+                    var = pd.DataFrame(index=pd.Index(['g0', 'g1', 'g2'], name='gene'))
+                    p1, p2 = os.path.join(d, 's1.h5ad'), os.path.join(d, 's2.h5ad')
+                    with warnings.catch_warnings():
+                        warnings.simplefilter('ignore')
+                        anndata.AnnData(X=sp.csr_matrix(A1) if enc == 'csr' else A1, obs=obs1, var=var).write_h5ad(p1)
+                        anndata.AnnData(X=sp.csr_matrix(A2) if enc == 'csr' else A2, obs=obs1, var=var).write_h5ad(p2)
+                    dst = os.path.join(d, 'stacked.h5ad')
+                    ctx.count({'mixed_width': [t1, t2, enc, sparse_out]}, nontrivial=True)
+                    try:
+                        with warnings.catch_warnings():
+                            warnings.simplefilter('ignore')
+                            amalgamate_h5ad(src_rows=[{'path': p1, 'rows': [0, 1], 'layer': 'X'},
+                                                      {'path': p2, 'rows': [1, 0], 'layer': 'X'}],
+                                            dst_path=dst, dst_obs=pd.DataFrame(index=pd.Index(['r0', 'r1', 'r2', 'r3'],
+                                                                                              name='cell_id')),
+                                            dst_var=var, dst_sparse=sparse_out, tmp_dir=d)
+                    except Exception:
+                        continue                           # refused: nothing was promised
+                    a = anndata.read_h5ad(dst)
+                    X = a.X.toarray() if sp.issparse(a.X) else np.asarray(a.X)
+                    want = np.vstack([A1.astype(np.float64), A2[[1, 0]].astype(np.float64)])
+                    if X.shape != want.shape or not np.array_equal(X.astype(np.float64), want):
+                        nbad += 1
+                        ctx.report('files:amalgamate:wrong-result', f'stacking a {t1} file and a {t2} file ({enc}, sparse output '
+                                   f'{sparse_out}) was accepted but the stacked matrix is {X.tolist()} instead of {want.tolist()}',
+                                   {'mixed_width': [t1, t2, enc, sparse_out]})
+                finally:
+                    shutil.rmtree(d, ignore_errors=True)
     ctx.part('files', patterns=len(scns), disagreements=nbad)
 
 
